@@ -23,10 +23,14 @@ def cases(chk):
         if c.get("family") == "calls":
             continue
         yield c["source"], c["n_init"], "corpus:" + os.path.basename(path)
+    for src, n_init in R.call_matrix():
+        yield src, n_init, "callmatrix"
     n = 220 if chk.tier == "thorough" else 28
     for _ in range(n):
-        prog = R.gen_program(chk.rng, chk.rng.randint(3, 6), codeblocks=chk.rng.random() < 0.3,
-                             struct=chk.rng.random() < 0.25, calls=chk.rng.random() < 0.2)
+        module = chk.rng.random() < 0.25
+        prog = R.gen_program(chk.rng, chk.rng.randint(3, 6), codeblocks=not module and chk.rng.random() < 0.3,
+                             struct=not module and chk.rng.random() < 0.25, calls=chk.rng.random() < 0.2,
+                             module=module)
         yield R.source_of(prog), R.n_init_nodes(prog), "gen"
 
 
@@ -287,8 +291,11 @@ def run(chk):
         nb = len(parsed.body)
         for i in range(nb):
             for j in range(i + 1, nb + 1):
+                if origin == "callmatrix" and (i, j) not in ((1, 2), (0, 3)):
+                    continue
                 try:
-                    ctx, ls = prepare(parsed, i, j, with_extract=(origin != "gen" or chk.rng.random() < 0.2))
+                    ctx, ls = prepare(parsed, i, j, with_extract=(origin.startswith("corpus") or (origin == "callmatrix" and (i, j) == (1, 2))
+                                                                   or chk.rng.random() < 0.2))
                 except (minif.Unsupported, NotImplementedError):
                     dist["skipped_unsupported"] += 1
                     continue
